@@ -247,4 +247,114 @@ theorem update_good {sh : Sh p} (wf : sh.WF) {w : World p} (h : Inv sh w) :
     simp only [itemsIn, hk, if_false] at this
     exact this
 
+
+/-! ### hosts / frontend maps guard -/
+
+@[simp] theorem hset_apply (m : Fin p → Option Nat) (x y : Fin p) (v : Option Nat) :
+    hset m x v y = if y = x then v else m y := rfl
+
+/-- while `frontend.Maps != nil`: whatever differs from the written maps is tracked in add/del -/
+structure HInv (s : HStore p) : Prop where
+  a : s.mapsNil = false → ∀ x c, s.add x = some c → s.items x = some c
+  b : s.mapsNil = false → ∀ x, s.add x = none → s.del x = none → s.items x = s.maps x
+  b2 : s.mapsNil = false → ∀ x, s.add x = none → (s.del x).isSome = true → s.items x = none
+  c : s.mapsNil = false → ∀ x d, s.del x = some d → s.maps x = some d
+
+theorem hacquire_inv {s : HStore p} (h : HInv s) (x : Fin p) (c : Nat) : HInv (s.acquire x c) := by
+  unfold HStore.acquire
+  cases hi : s.items x with
+  | some v => simpa using h
+  | none =>
+    obtain ⟨ha, hb, hb2, hc⟩ := h
+    refine ⟨?_, ?_, ?_, ?_⟩ <;> (simp only [hset_apply]; grind)
+
+theorem hremoveOne_add (s : HStore p) (x : Fin p) : (s.removeOne x).add = s.add := by
+  unfold HStore.removeOne; cases s.items x <;> rfl
+
+theorem hremoveOne_inv {s : HStore p} (h : HInv s) (x : Fin p) (hx : s.add x = none) :
+    HInv (s.removeOne x) := by
+  unfold HStore.removeOne
+  cases hi : s.items x with
+  | none => simpa using h
+  | some v =>
+    obtain ⟨ha, hb, hb2, hc⟩ := h
+    have hdx : s.mapsNil = false → s.maps x = some v := by
+      intro hm
+      cases hd : s.del x with
+      | none => rw [← hb hm x hx hd]; exact hi
+      | some d' => have := hb2 hm x hx (by simp [hd]); rw [hi] at this; cases this
+    refine ⟨?_, ?_, ?_, ?_⟩ <;> (simp only [hset_apply]; grind)
+
+theorem hremoveAll_inv (xs : List (Fin p)) : ∀ {s : HStore p}, HInv s →
+    (∀ x ∈ xs, s.add x = none) → HInv (s.removeAll xs) := by
+  induction xs with
+  | nil => intro s h _; simpa [HStore.removeAll] using h
+  | cons x xs ih =>
+    intro s h hx
+    have h1 := hremoveOne_inv h x (hx x (List.mem_cons_self))
+    have := ih h1 (by
+      intro y hy
+      rw [hremoveOne_add]; exact hx y (List.mem_cons_of_mem _ hy))
+    simpa [HStore.removeAll] using this
+
+theorem hclear_inv (s : HStore p) : HInv s.clear := by
+  refine ⟨?_, ?_, ?_, ?_⟩ <;> intro h <;> simp [HStore.clear] at h
+
+theorem hmatched_iff (s : HStore p) (x : Fin p) :
+    s.hmatched x = true ↔ ∃ d, s.del x = some d ∧ s.add x = some d := by
+  unfold HStore.hmatched
+  cases hd : s.del x <;> cases ha : s.add x <;> simp
+
+theorem hshrink_inv {s : HStore p} (h : HInv s) : HInv s.shrink := by
+  obtain ⟨ha, hb, hb2, hc⟩ := h
+  refine ⟨?_, ?_, ?_, ?_⟩
+  · intro hm x c
+    simp only [HStore.shrink]
+    by_cases hx : s.hmatched x = true
+    · simp [hx]
+    · simp only [hx]; exact ha hm x c
+  · intro hm x
+    simp only [HStore.shrink]
+    by_cases hx : s.hmatched x = true
+    · obtain ⟨d, hd, _⟩ := (hmatched_iff _ _).1 hx
+      simp only [hx, if_true]
+      intro _ _; rw [hd]; exact (hc hm x d hd).symm
+    · simp only [hx]; exact hb hm x
+  · intro hm x
+    simp only [HStore.shrink]
+    by_cases hx : s.hmatched x = true
+    · simp [hx]
+    · simp only [hx]; exact hb2 hm x
+  · intro hm x d
+    simp only [HStore.shrink]
+    by_cases hx : s.hmatched x = true
+    · simp [hx]
+    · simp only [hx]; exact hc hm x d
+
+/-- after `WriteFrontendMaps` + `Commit` the map files hold exactly the current hosts -/
+theorem hupdate_good {s : HStore p} (h : HInv s) :
+    (∀ x, s.update.maps x = s.update.items x) ∧ s.update.mapsNil = false ∧ HInv s.update := by
+  have hs := hshrink_inv h
+  have key : (∀ x, s.update.maps x = s.update.items x) ∧ s.update.mapsNil = false := by
+    unfold HStore.update
+    by_cases hg : (!s.shrink.mapsNil && !s.shrink.isChanged) = true
+    · simp only [hg, if_true]
+      simp only [Bool.and_eq_true, Bool.not_eq_true'] at hg
+      refine ⟨?_, hg.1⟩
+      intro x
+      have := (anyFin_false_iff _).1 hg.2 x
+      have hn : s.shrink.add x = none ∧ s.shrink.del x = none := by
+        cases ha : s.shrink.add x <;> cases hd : s.shrink.del x <;> simp_all
+      exact (hs.b hg.1 x hn.1 hn.2).symm
+    · simp only [hg]
+      exact ⟨fun _ => rfl, rfl⟩
+  refine ⟨key.1, key.2, ?_⟩
+  have hadd : ∀ x, s.update.add x = none := by intro x; unfold HStore.update; simp only []
+  have hdel : ∀ x, s.update.del x = none := by intro x; unfold HStore.update; simp only []
+  refine ⟨?_, ?_, ?_, ?_⟩
+  · intro _ x c hx; rw [hadd] at hx; cases hx
+  · intro _ x _ _; exact (key.1 x).symm
+  · intro _ x _ hx; rw [hdel] at hx; cases hx
+  · intro _ x d hx; rw [hdel] at hx; cases hx
+
 end HapVerif.C05
